@@ -212,8 +212,10 @@ func plans(id, tier string) (Plan, bool) {
 		return Plan{Level: "model_checking", Jobs: jobs}, true
 	case "C20":
 		return Plan{Level: "model_checking", Jobs: []Job{
-			{Pkg: pkgSets, Harness: "c20_stringset", Shards: pick(4, 8)},
-			{Pkg: pkgIntSets, Harness: "c20_intset", Shards: pick(4, 8)},
+			{Pkg: pkgSets, Harness: "c20_stringset", Params: "observe=path", Shards: pick(4, 8)},
+			{Pkg: pkgSets, Harness: "c20_stringset", Params: "observe=end", Shards: pick(4, 8)},
+			{Pkg: pkgIntSets, Harness: "c20_intset", Params: "observe=path", Shards: pick(4, 8)},
+			{Pkg: pkgIntSets, Harness: "c20_intset", Params: "observe=end", Shards: pick(4, 8)},
 			{Pkg: pkgPQ, Harness: "c20_queue", Params: "order=min;setindex=yes"},
 			{Pkg: pkgPQ, Harness: "c20_queue", Params: "order=max;setindex=yes"},
 			{Pkg: pkgPQ, Harness: "c20_queue", Params: "order=max;setindex=no"},
